@@ -7,6 +7,7 @@ import IrisVerif.Props.C01
 import IrisVerif.Props.C01QZ
 import IrisVerif.Props.C01State
 import IrisVerif.Props.BridgeC01Sim
+import Mathlib.LinearAlgebra.Matrix.NonsingularInverse
 
 open Matrix
 
@@ -130,5 +131,160 @@ theorem certificate_fails_witness
   exact hcon ⟨x0, u, h⟩
 
 end converse
+
+/-! ## Full uniqueness: the computed solution is THE stable one -/
+
+section uniqueness
+variable {nr nf nb nu : Type} [Fintype nr] [Fintype nf] [Fintype nb] [Fintype nu]
+variable [DecidableEq nr] [DecidableEq nf] [DecidableEq nb]
+variable {F : Type} [Field F] [LinearOrder F] [IsStrictOrderedRing F] [Archimedean F]
+variable (d : QZ nr nf nb nu F)
+
+/-- **Uniqueness.**  Under the hypotheses of `C01QZ` (exact QZ identities, invertible `S11`, `T22`, `S22+T22`, `Z21`), an inverse of
+`Z`, and a contracting power of `J = -T22⁻¹ S22` (the unstable roots are outside the unit circle): ANY shock-free path `ζ[t]` of the
+whole stacked system `A ζ[t+1] + B ζ[t] + C = 0` (all rows, every `t`) whose unstable block `(Z⁻¹ ζ[t])₂` stays bounded has the
+state recursion of the computed solution, `ξ[t+1] = T ξ[t] + K` -- there is no other non-explosive solution. -/
+theorem uniqueness_qz (hS11' : d.S11i * d.S11 = 1) (hT22' : d.T22i * d.T22 = 1)
+    (Zi : Matrix (nb ⊕ nf) (nf ⊕ nb) F) (hZ : d.Zm * Zi = 1)
+    (m : ℕ) (q : F) (hq : RowSumLe (d.Jm ^ m) q) (hq0 : 0 ≤ q) (hq1 : q < 1)
+    (ζ : ℕ → nf ⊕ nb → F) (hsys : ∀ t, d.A *ᵥ ζ (t + 1) + d.B *ᵥ ζ t + d.C = 0)
+    (Bd : F) (hb : ∀ t, VecLe (fun i => (Zi *ᵥ ζ t) (Sum.inr i)) Bd) (t : ℕ) :
+    (fun b => ζ (t + 1) (Sum.inr b)) = d.Tsq *ᵥ (fun b => ζ t (Sum.inr b)) + d.Ksq := by
+  -- transformed coordinates (opaque)
+  obtain ⟨w, hwdef⟩ : ∃ w : ℕ → nb ⊕ nf → F, ∀ t, w t = Zi *ᵥ ζ t := ⟨_, fun _ => rfl⟩
+  obtain ⟨s, hs⟩ : ∃ s : ℕ → nb → F, ∀ t i, s t i = w t (Sum.inl i) := ⟨_, fun _ _ => rfl⟩
+  obtain ⟨un, hun⟩ : ∃ un : ℕ → nf → F, ∀ t i, un t i = w t (Sum.inr i) := ⟨_, fun _ _ => rfl⟩
+  have hw : ∀ t, w t = Sum.elim (s t) (un t) := by
+    intro t; funext i; rcases i with i | i
+    · rw [Sum.elim_inl, hs]
+    · rw [Sum.elim_inr, hun]
+  have hζ : ∀ t, ζ t = d.Zm *ᵥ w t := by
+    intro t; rw [hwdef, Matrix.mulVec_mulVec, hZ, Matrix.one_mulVec]
+  have key : ∀ (M : Matrix nr (nf ⊕ nb) F) t,
+      d.Q *ᵥ (M *ᵥ ζ t) = (d.Q * M * fromBlocks d.Z11 d.Z12 d.Z21 d.Z22) *ᵥ w t := by
+    intro M t
+    conv_lhs => rw [hζ t]
+    rw [Matrix.mulVec_mulVec, Matrix.mulVec_mulVec]; rfl
+  have htr : ∀ t, fromBlocks d.S11 d.S12 0 d.S22 *ᵥ w (t + 1) + fromBlocks d.T11 d.T12 0 d.T22 *ᵥ w t + d.Q *ᵥ d.C = 0 := by
+    intro t
+    have h := congrArg (fun x => d.Q *ᵥ x) (hsys t)
+    simp only [Matrix.mulVec_add, Matrix.mulVec_zero] at h
+    rw [key, key, d.hS, d.hT] at h
+    exact h
+  have hlow : ∀ t, d.S22 *ᵥ un (t + 1) + d.T22 *ᵥ un t + d.QC2 = 0 := by
+    intro t
+    funext i
+    have hi := congrFun (htr t) (Sum.inr i)
+    rw [hw (t + 1), hw t] at hi
+    simp only [Matrix.fromBlocks_mulVec, Pi.add_apply, Sum.elim_inr, Sum.elim_comp_inl, Sum.elim_comp_inr, Matrix.zero_mulVec,
+      zero_add, Pi.zero_apply] at hi
+    exact hi
+  have hup : ∀ t, d.S11 *ᵥ s (t + 1) + d.S12 *ᵥ un (t + 1) + (d.T11 *ᵥ s t + d.T12 *ᵥ un t) + d.QC1 = 0 := by
+    intro t
+    funext i
+    have hi := congrFun (htr t) (Sum.inl i)
+    rw [hw (t + 1), hw t] at hi
+    simp only [Matrix.fromBlocks_mulVec, Pi.add_apply, Sum.elim_inl, Sum.elim_comp_inl, Sum.elim_comp_inr, Pi.zero_apply] at hi
+    exact hi
+  -- the unstable block is the forward-solved constant
+  have hback : ∀ (x y : nf → F), d.S22 *ᵥ y + d.T22 *ᵥ x + d.QC2 = 0 → x = d.Jm *ᵥ y + -(d.T22i *ᵥ d.QC2) := by
+    intro x y h
+    have h' : d.T22 *ᵥ x = -(d.S22 *ᵥ y) - d.QC2 := by
+      have e : d.T22 *ᵥ x = (d.S22 *ᵥ y + d.T22 *ᵥ x + d.QC2) - d.S22 *ᵥ y - d.QC2 := by abel
+      rw [e, h]; abel
+    have h'' := congrArg (fun z => d.T22i *ᵥ z) h'
+    simp only [Matrix.mulVec_mulVec, hT22', Matrix.one_mulVec, Matrix.mulVec_sub, Matrix.mulVec_neg] at h''
+    rw [h'', QZ.Jm, Matrix.neg_mulVec]; abel
+  have hKu1 : d.S22 *ᵥ d.Ku + d.T22 *ᵥ d.Ku + d.QC2 = 0 := by
+    have h := d.lower_block_qz 0
+    simpa using h
+  have hun_const : ∀ t, un t = d.Ku := by
+    intro t
+    refine C01State.unstable_block_unique d.Jm (-(d.T22i *ᵥ d.QC2)) d.Ku (hback _ _ hKu1) m q hq hq0 hq1 un
+      (fun t => hback _ _ (hlow t)) Bd ?_ t
+    intro t i
+    have := hb t i
+    rw [hun t i, hwdef t]; exact this
+  -- the stable block follows the computed recursion
+  obtain ⟨γ, hγ⟩ : ∃ γ : nb → F, γ = s t - d.G *ᵥ d.Ku := ⟨_, rfl⟩
+  have hst : s t = γ + d.G *ᵥ d.Ku := by rw [hγ]; abel
+  have hnext : s (t + 1) = d.Tg *ᵥ γ + d.Kg + d.G *ᵥ d.Ku := by
+    have h1 := hup t
+    rw [hun_const (t + 1), hun_const t, hst] at h1
+    have h2 := d.upper_block_qz γ 0
+    simp only [Matrix.mulVec_zero, add_zero] at h2
+    have h3 : d.S11 *ᵥ s (t + 1) = d.S11 *ᵥ (d.Tg *ᵥ γ + d.Kg + d.G *ᵥ d.Ku) := by
+      have a1 : d.S11 *ᵥ s (t + 1) = -(d.S12 *ᵥ d.Ku + (d.T11 *ᵥ (γ + d.G *ᵥ d.Ku) + d.T12 *ᵥ d.Ku) + d.QC1) := by
+        have e : d.S11 *ᵥ s (t + 1) = (d.S11 *ᵥ s (t + 1) + d.S12 *ᵥ d.Ku + (d.T11 *ᵥ (γ + d.G *ᵥ d.Ku) + d.T12 *ᵥ d.Ku) + d.QC1)
+            - (d.S12 *ᵥ d.Ku + (d.T11 *ᵥ (γ + d.G *ᵥ d.Ku) + d.T12 *ᵥ d.Ku) + d.QC1) := by abel
+        rw [e, h1]; abel
+      have a2 : d.S11 *ᵥ (d.Tg *ᵥ γ + d.Kg + d.G *ᵥ d.Ku) = -(d.S12 *ᵥ d.Ku + (d.T11 *ᵥ (γ + d.G *ᵥ d.Ku) + d.T12 *ᵥ d.Ku) + d.QC1) := by
+        have e : d.S11 *ᵥ (d.Tg *ᵥ γ + d.Kg + d.G *ᵥ d.Ku)
+            = (d.S11 *ᵥ (d.Tg *ᵥ γ + d.Kg + d.G *ᵥ d.Ku) + d.S12 *ᵥ d.Ku + d.T11 *ᵥ (γ + d.G *ᵥ d.Ku) + d.T12 *ᵥ d.Ku + d.QC1)
+              - (d.S12 *ᵥ d.Ku + (d.T11 *ᵥ (γ + d.G *ᵥ d.Ku) + d.T12 *ᵥ d.Ku) + d.QC1) := by abel
+        rw [e, h2]; abel
+      rw [a1, a2]
+    have h4 := congrArg (fun z => d.S11i *ᵥ z) h3
+    simpa [Matrix.mulVec_mulVec, hS11'] using h4
+  -- back to the state
+  have hξ : ∀ (t' : ℕ) (g : nb → F), s t' = g + d.G *ᵥ d.Ku → (fun b => ζ t' (Sum.inr b)) = d.Z21 *ᵥ g := by
+    intro t' g hg
+    have h := hζ t'
+    rw [hw t', hun_const t', hg, d.Zm_mulVec_qz] at h
+    funext b
+    rw [h, Sum.elim_inr]
+  rw [hξ t γ hst, hξ (t + 1) (d.Tg *ᵥ γ + d.Kg) hnext]
+  simp only [QZ.Tsq, QZ.Ksq, Matrix.mulVec_add, ← Matrix.mulVec_mulVec, d.Z21i_Z21_mulVec]
+
+/-- **End to end, input-level hypotheses only** (exact QZ identities, invertible named blocks, the dynamic identities of the lead
+tokens, claimed rows reading `ζ[t-1]` in its `ξ` part, an inverse of `Z`, a contracting power of `J`): the matrices computed by
+`_solve_transition_equations` (i) make every claimed row hold in every period along every simulated path -- every initial
+condition, every unanticipated and finite-horizon anticipated shock path --, and (ii) are the only non-explosive solution. -/
+theorem end_to_end_qz {nc : Type} [Fintype nc] [DecidableEq nu]
+    {sh : nf → ℕ} {src : nf → nb} {prev : nf → nf ⊕ nb} {idr : nf → nr} (cr : nc → nr)
+    (hl : LeadIdentities d sh src prev idr) (hB0 : ∀ r i, d.B (cr r) (Sum.inl i) = 0)
+    (hS11' : d.S11i * d.S11 = 1) (hT22' : d.T22i * d.T22 = 1)
+    (Zi : Matrix (nb ⊕ nf) (nf ⊕ nb) F) (hZ : d.Zm * Zi = 1)
+    (m : ℕ) (q : F) (hq : RowSumLe (d.Jm ^ m) q) (hq0 : 0 ≤ q) (hq1 : q < 1) :
+    (∀ (H : ℕ) (x0 : nb → F) (u v : ℕ → nu → F), (∀ s, H < s → v s = 0) → ∀ t,
+        residAt d.Tsq d.Ksq d.Psq sh src (Afq d cr) (Abq d cr) (Bbq d cr) (Ccq d cr) (Ddq d cr) x0 u v
+          (impact d.Psq d.Xsq d.Jm d.Ru H v) t = 0) ∧
+    (∀ (ζ : ℕ → nf ⊕ nb → F), (∀ t, d.A *ᵥ ζ (t + 1) + d.B *ᵥ ζ t + d.C = 0) →
+        (∃ Bd, ∀ t, VecLe (fun i => (Zi *ᵥ ζ t) (Sum.inr i)) Bd) →
+        ∀ t, (fun b => ζ (t + 1) (Sum.inr b)) = d.Tsq *ᵥ (fun b => ζ t (Sum.inr b)) + d.Ksq) :=
+  ⟨fun H x0 u v hv t => equations_hold_qz d cr hl hB0 H x0 u v hv t,
+   fun ζ hsys ⟨Bd, hb⟩ t => uniqueness_qz d hS11' hT22' Zi hZ m q hq hq0 hq1 ζ hsys Bd hb t⟩
+
+end uniqueness
+
+/-! ### Non-vacuity of the uniqueness / end-to-end hypotheses: the scalar example `exQZ` -/
+
+section example_final
+
+/-- inverse of `Z = [[1, 3], [2, 2]]` -/
+def exZi : Matrix (Fin 1 ⊕ Fin 1) (Fin 1 ⊕ Fin 1) ℚ := Matrix.of (Sum.elim (fun _ => Sum.elim ![-1/2] ![3/4]) (fun _ => Sum.elim ![1/2] ![-1/4]))
+
+example : exQZ.Zm * exZi = 1 ∧ exQZ.S11i * exQZ.S11 = 1 ∧ exQZ.T22i * exQZ.T22 = 1 ∧ RowSumLe (exQZ.Jm ^ 1) (2/3 : ℚ) := by
+  refine ⟨?_, ?_, ?_, ?_⟩
+  · ext i j
+    rcases i with i | i <;> rcases j with j | j <;> fin_cases i <;> fin_cases j <;>
+      simp [QZ.Zm, exQZ, exZi, Matrix.mul_apply, Fintype.sum_sum_type, Matrix.one_apply] <;> norm_num
+  · ext i j; fin_cases i; fin_cases j; simp [exQZ, Matrix.mul_apply] <;> norm_num
+  · ext i j; fin_cases i; fin_cases j; simp [exQZ, Matrix.mul_apply] <;> norm_num
+  · intro i; fin_cases i
+    simp [QZ.Jm, exQZ, Matrix.mul_apply] <;> norm_num [abs_of_pos]
+
+/-- the steady state `(x[+1]; x) = (8; 8)` is a bounded solution of the whole stacked system of the example -/
+example : exQZ.A *ᵥ (fun _ => (8 : ℚ)) + exQZ.B *ᵥ (fun _ => (8 : ℚ)) + exQZ.C = 0 := by
+  ext i; fin_cases i <;> simp [exQZ, Matrix.mulVec, dotProduct, Fintype.sum_sum_type] <;> norm_num
+
+/-- the shape hypotheses of the simulator bridge `BridgeC01Sim.foldl_xiStep_eq_path_PU` are met by concrete `QMat`s
+(`T = P = 1`, `K = 0`, three data columns, frame starting in column 1, two periods) -/
+example : True := by
+  have _h := BridgeC01Sim.foldl_xiStep_eq_path_PU (QMat.identity 1) (QMat.zero 1 1) (QMat.identity 1) (QMat.zero 1 3) #[]
+    (QMat.zero 1 1) 1 1 1 rfl rfl rfl rfl rfl 2 (by decide)
+  trivial
+
+end example_final
 
 end IrisVerif.C01Final
